@@ -305,6 +305,120 @@ def rule_tempoform(ctx):
     yield ob(R, f, "tempo.detection:hit", hit_ok, "hits[i] = min over both estimates of |ref_i - est| / ref_i <= tol, for the i-th reference tempo")
 
 
+def rule_contthresh(ctx):
+    """continuity: phase errors are compared with the phase threshold and period errors with the period threshold, in every branch."""
+    R = "C04.CONTTHRESH"
+    f = ctx.program.func("beat.continuity", R)
+    s = ctx.S.get(f.qual)
+    per = tm.param("continuity_period_threshold")
+    pha = tm.param("continuity_phase_threshold")
+    cm = [x for x in s.by_kind("cmp") if x.term.op == "cmp" and x.term.a[0] == "<" and x.term.a[2] in (per, pha)]
+    need(len(cm) >= 4, R, "continuity: threshold comparisons not found")
+
+    def kind(t):
+        """'period' for |1 - a/b| (or its 0/inf special cases), 'phase' for |a/b| (or 1/inf)."""
+        ks = set()
+        for x in resolve_ite_free(t):
+            if x.op == "call" and call_name(x) == "np.abs" and x.a[1][0].op == "bin":
+                inner = x.a[1][0]
+                if inner.a[0] == "-" and tm.is_const(inner.a[1], 1) and inner.a[2].op == "bin" and inner.a[2].a[0] == "/":
+                    ks.add("period")
+                elif inner.a[0] == "/":
+                    ks.add("phase")
+                else:
+                    ks.add("?")
+            elif is_lit(x) or (x.op == "ext" and x.a[0] == "np.inf"):
+                continue
+            else:
+                ks.add("?")
+        return ks
+
+    n = {"period": 0, "phase": 0}
+    for i, x in enumerate(cm):
+        want = "period" if x.term.a[2] is per else "phase"
+        got = kind(x.term.a[1])
+        n[want] += 1
+        yield ob(R, f, "beat.continuity:%s-threshold@%d" % (want, n[want]), got == {want}, "a %s error (%s) is compared with continuity_%s_threshold" % ("/".join(sorted(got)) or "constant", tm.show(x.term.a[1], 2), want), node=x.node)
+    yield ob(R, f, "beat.continuity:both-branches", n["period"] == n["phase"] and n["period"] >= 2, "first-beat and later-beat branches each test phase and period (%d + %d comparisons)" % (n["phase"], n["period"]))
+
+
+def rule_overallform(ctx):
+    """overall_accuracy (Bittner & Bosch): facets of the two summands."""
+    R = "C04.OVERALLFORM"
+    f = ctx.program.func("melody.overall_accuracy", R)
+    s = ctx.S.get(f.qual)
+    main = [r for r in s.returns if not is_lit(r.term)]
+    need(len(main) == 1, R, "overall_accuracy: formula return not found")
+    t = main[0].term
+    need(t.op == "bin" and t.a[0] == "/", R, "overall_accuracy is not a ratio")
+    num, den = t.a[1], t.a[2]
+    yield ob(R, f, "melody.overall_accuracy:per-frame", den.op == "call" and call_name(den) == "builtins.len" and den.a[1][0].op == "param" and den.a[1][0].a[0] == "ref_voicing", "normalised by the number of frames")
+    terms = []
+
+    def summands(x):
+        if x.op == "bin" and x.a[0] == "+":
+            summands(x.a[1])
+            summands(x.a[2])
+        else:
+            terms.append(x)
+
+    summands(num)
+    rb = None
+    unv = [x for x in terms if x.op == "call" and call_name(x) == "np.sum" and x.a[1][0].op == "bin" and x.a[1][0].a[0] == "*" and all(z.op == "bin" and z.a[0] == "-" and tm.is_const(z.a[1], 1) for z in (x.a[1][0].a[1], x.a[1][0].a[2]))]
+    good = len(unv) == 1
+    if good:
+        parts = [z.a[2] for z in (unv[0].a[1][0].a[1], unv[0].a[1][0].a[2])]
+        bins = [z for z in parts if z.op == "call" and call_name(z) == "astype" and z.a[1][0].op == "cmp" and z.a[1][0].a[0] == "<" and tm.is_const(z.a[1][0].a[1], 0) and z.a[1][0].a[2].op == "param" and z.a[1][0].a[2].a[0] == "ref_voicing"]
+        ev = [z for z in parts if z.op == "param" and z.a[0] == "est_voicing"]
+        good = len(bins) == 1 and len(ev) == 1
+        rb = bins[0] if bins else None
+    yield ob(R, f, "melody.overall_accuracy:unvoiced-term", good, "unvoiced agreement is sum((1 - [ref_voicing > 0]) * (1 - est_voicing)): the *binary* reference indicator")
+    voiced = [x for x in terms if x not in unv]
+    good = len(voiced) == 1 and voiced[0].op == "bin" and voiced[0].a[0] == "*"
+    if good:
+        facs = []
+
+        def prod(x):
+            if x.op == "bin" and x.a[0] == "*":
+                prod(x.a[1])
+                prod(x.a[2])
+            else:
+                facs.append(x)
+
+        prod(voiced[0])
+        sm = [z for z in facs if z.op == "call" and call_name(z) == "np.sum"]
+        ratio = [z for z in facs if z not in sm]
+        good = len(sm) == 1 and len(ratio) == 1
+        if good:
+            inner = []
+
+            def prod2(x):
+                if x.op == "bin" and x.a[0] == "*":
+                    prod2(x.a[1])
+                    prod2(x.a[2])
+                else:
+                    inner.append(x)
+
+            prod2(sm[0].a[1][0])
+            names = sorted("cmp" if z.op == "cmp" else (z.a[0].a[0] if z.op == "sub" and z.a[0].op == "param" else "?") for z in inner)
+            good = names == ["cmp", "est_voicing", "ref_voicing"]
+            r = [z for z in resolve_ite_free(ratio[0]) if not is_lit(z)]
+            good = good and len(r) == 1 and r[0].op == "bin" and r[0].a[0] == "/" and r[0].a[1].op == "call" and call_name(r[0].a[1]) == "np.sum" and (rb is None or r[0].a[1].a[1][0] is rb) and r[0].a[2].op == "call" and call_name(r[0].a[2]) == "np.sum" and r[0].a[2].a[1][0].op == "param" and r[0].a[2].a[1][0].a[0] == "ref_voicing"
+    yield ob(R, f, "melody.overall_accuracy:voiced-term", good, "voiced agreement is (sum(binary ref) / sum(ref_voicing)) * sum(ref_voicing * est_voicing * correct) over frames where both pitches are present")
+
+
+def rule_matchdef(ctx):
+    """Shared with C05: hits are the size of a matching over exactly the pairs inside the stated tolerance."""
+    from . import c05
+
+    for o in c05.rule_windowsides(ctx):
+        o.rule = "C04.MATCHDEF"
+        yield o
+    for o in c05.rule_edgepred(ctx):
+        o.rule = "C04.MATCHDEF"
+        yield o
+
+
 def rule_shared(ctx):
     for o in c01.rule_fform(ctx):
         o.rule = "C04.FFORM"
@@ -322,4 +436,7 @@ RULES = [
     ("C04.CMPKIND", 11, rule_cmpkind),
     ("C04.TEMPOFORM", 2, rule_tempoform),
     ("C04.FFORM", 6, rule_shared),
+    ("C04.CONTTHRESH", 5, rule_contthresh),
+    ("C04.OVERALLFORM", 3, rule_overallform),
+    ("C04.MATCHDEF", 20, rule_matchdef),
 ]
